@@ -1203,7 +1203,7 @@ class BaseSQL(
                 p[0].update({"primary_key_enforced": p_list[-1]["enforced"]})
             elif "DEFAULT" in p_list:
                 if isinstance(p_list[-1], dict):
-                    value = p_list[-1].get("CHARSET") or p_list[-1].get("charset")
+                    value = next((v for k, v in p_list[-1].items() if k.upper() == "CHARSET"), None)
                 else:
                     value = p_list[-1]
                 p[0].update({"default_charset": value})
